@@ -1,10 +1,61 @@
-(* C08 — every request is answered with its own reply, in issue order.  Statements only. *)
-From MPD Require Import Bytes Tables LoopModel LoopProofs.
+(* C08 — when the connection ends, every request resolves and the failure is reported.
+   Statements only. *)
+From MPD Require Import Bytes Tables BuilderModel LoopModel LoopProofs.
 Open Scope N_scope.
 
-Theorem c08_placeholder : forall wf p i p' outs bs,
-  cstep wf p i = (p', outs) -> In (OWrite bs) outs ->
-  bs = idle_line \/ bs = noidle_line \/
-  (exists q, (p = PCancel q \/ i = InCmd (Some q)) /\ bs = q_bytes q).
-Proof. exact cstep_writes. Qed.
-Print Assumptions c08_placeholder.
+(* no responder is ever forgotten: at every resumption each responder the loop holds (or has just
+   taken from the queue) is answered, dropped (its caller gets ConnectionClosed) or still held *)
+Theorem c08_responders_accounted : forall wf p i p' outs id,
+  enabled p i = true -> cstep wf p i = (p', outs) -> In id (holds p ++ taken i) ->
+  answered outs id \/ In id (holds p').
+Proof. exact responders_accounted. Qed.
+
+(* a loop that has left holds nothing and says nothing more *)
+Theorem c08_exited_is_final : forall wf i, cstep wf PExited i = (PExited, []) /\ holds PExited = [].
+Proof. intros. split; [apply exited_is_silent | reflexivity]. Qed.
+
+(* at most one closing event, only while leaving, after every other event *)
+Theorem c08_one_closing_event : forall wf p i p' outs,
+  cstep wf p i = (p', outs) ->
+  (existsb is_closed outs = true -> p' = PExited) /\
+  (length (filter is_closed outs) <= 1)%nat /\
+  no_event_after_closed outs = true.
+Proof. exact closing_event_last. Qed.
+
+(* once the transport is dead (every receive ends at once with end-of-stream or an error) the loop
+   leaves after at most 3*|queue|+3 resumptions, whatever the queue holds and whichever enabled
+   event is chosen - so no request can hang *)
+Theorem c08_dead_transport_exits : forall r wf n s s',
+  terminal r = true -> druns r wf n s s' -> (forall s'', ~ dstep r wf s' s'') ->
+  fst s' = PExited /\ (n <= 3 * length (snd s) + 3)%nat.
+Proof. exact dead_exits. Qed.
+
+Theorem c08_always_a_step : forall r wf p qs, p <> PExited -> exists s', dstep r wf (p, qs) s'.
+Proof. exact dead_progress. Qed.
+
+(* an unclean end is surfaced: a receive error reaches the responder in flight, or, when the loop
+   idles, becomes the closing event *)
+Theorem c08_failure_surfaced : forall wf e,
+  cstep wf PIdle (InRecv (RErr e)) = (PExited, [OClosed (CKProto e)]) /\
+  (forall q, cstep wf (PCancel q) (InRecv (RErr e)) = (PExited, [OReply (q_id q) (RepProto e)])) /\
+  (forall id, cstep wf (PWait id) (InRecv (RErr e)) = (PWindow, [OReply id (RepProto e)])).
+Proof. intros; repeat split. Qed.
+
+(* a clean close, or the last handle dropped while idle: the loop leaves silently *)
+Theorem c08_clean_close_is_silent : forall wf,
+  cstep wf PIdle (InRecv RClean) = (PExited, []) /\ cstep wf PIdle (InCmd None) = (PExited, []).
+Proof. intros; split; reflexivity. Qed.
+
+Example c08_drain_example :
+  let q := fun n => mkReq n [] in
+  druns (RErr EIo) false 7 (PWait 1, [q 2; q 3]) (PExited, []).
+Proof.
+  cbn zeta.
+  repeat (eapply DRS; [first [eapply DRecv; reflexivity | eapply DCmd; reflexivity | eapply DTimeout; reflexivity]|]).
+  apply DR0.
+Qed.
+
+Print Assumptions c08_responders_accounted.
+Print Assumptions c08_one_closing_event.
+Print Assumptions c08_dead_transport_exits.
+Print Assumptions c08_always_a_step.
